@@ -5,13 +5,13 @@
 package sqlite
 
 //@ event yieldErr1 := call func(*eventbus.StoredEvent, error) bool#1
-//@ event yieldElem := call func(*eventbus.StoredEvent, error) bool#2 record 1:Int
+//@ event yieldElem := call func(*eventbus.StoredEvent, error) bool#2 record 1:Int res:Bool
 //@ event yieldErr3 := call func(*eventbus.StoredEvent, error) bool#3
 //@ event yieldErr4 := call func(*eventbus.StoredEvent, error) bool#4
 //@ event yieldAny := call func(*eventbus.StoredEvent, error) bool
 //@ event y1 := call func(*eventbus.StoredEvent, error) bool#1
 //@ event y2 := call func(*eventbus.StoredEvent, error) bool#2
-//@ event y3 := call func(*eventbus.StoredEvent, error) bool#3
+//@ event y3 := call func(*eventbus.StoredEvent, error) bool#3 record 1:Int res:Bool
 //@ event y4 := call func(*eventbus.StoredEvent, error) bool#4
 //@ event nextCall := call rowScanner.Next
 //@ event errCall := call rowScanner.Err
@@ -63,6 +63,7 @@ package sqlite
 //@   requires exclusive(eventCount)
 //@   requires exclusive(iterErr)
 //@   loop 1 invariant [C11.batch.last] (batchCount > 0 ==> lastPos == scancolInt(payload(rows), batchCount - 1, 0)) && (batchCount == 0 ==> lastPos == 0)
+//@   loop 1 invariant [C11.batch.goon] forall j int :: {nthres(yieldElem, j)} 0 <= j && j < cnt(yieldElem) ==> nthres(yieldElem, j)
 //@   loop 1 invariant [C11.batch.loop] batchCount == rowpos(payload(rows)) && 0 <= batchCount && batchCount <= rowsAvail(payload(rows)) &&
 //@        cnt(yieldElem) == batchCount && cnt(yieldErr1) == 0 && cnt(yieldErr3) == 0 && cnt(yieldErr4) == 0 && *eventCount == loopentry(*eventCount) + batchCount
 //@   ensures [C11.batch.completeOnlyIfNoErr] cont ==> !rowsFailed(payload(rows)) && batchCount == rowsTotal(payload(rows))
@@ -70,6 +71,13 @@ package sqlite
 //@   ensures [C11.batch.counter] 0 <= *eventCount && (batchCount > 0 ==> *eventCount <= lastPos) && (batchCount == 0 && cont ==> *eventCount == old(*eventCount))
 //@   ensures [C11.batch.count] cnt(yieldElem) <= rowsAvail(payload(rows)) && (cont ==> cnt(yieldElem) == batchCount)
 //@   ensures [C11.batch.errReported] cont || cnt(yieldErr1) + cnt(yieldErr3) + cnt(yieldErr4) == 1 || (cnt(yieldElem) > 0 && !lastres(yieldElem, Bool))
+//@   at call:func(*eventbus.StoredEvent, error) bool#2 assert [C10.batch.event] {C10,C11} event != nil && !scanFails(payload(rows), rowpos(payload(rows)) - 1) &&
+//@        event.Offset == dec(scancolInt(payload(rows), rowpos(payload(rows)) - 1, 0))
+//@   ensures [C11.batch.contClean] cont ==> cnt(yieldErr1) + cnt(yieldErr3) + cnt(yieldErr4) == 0 && (forall j int :: {nthres(yieldElem, j)} 0 <= j && j < cnt(yieldElem) ==> nthres(yieldElem, j))
+//@   ensures [C11.batch.errArgs] (cnt(yieldErr1) == 1 ==> lastarg(yieldErr1, 1) == nil && lastarg(yieldErr1, 2, Iface) != nil) &&
+//@        (cnt(yieldErr3) == 1 ==> lastarg(yieldErr3, 1) == nil && lastarg(yieldErr3, 2, Iface) != nil) &&
+//@        (cnt(yieldErr4) == 1 ==> lastarg(yieldErr4, 1) == nil && lastarg(yieldErr4, 2, Iface) != nil) &&
+//@        cnt(yieldErr1) + cnt(yieldErr3) + cnt(yieldErr4) <= 1
 //@   ensures [C11.batch.iterErr] rowsFailed(payload(rows)) && (cnt(yieldElem) == 0 || lastres(yieldElem, Bool)) && cnt(yieldErr1) == 0 ==> cnt(yieldErr3) == 1 && lastarg(yieldErr3, 1) == nil && lastarg(yieldErr3, 2, Iface) != nil && !cont
 
 // ---------------------------------------------------------------- scanEvents / streamRows
@@ -84,6 +92,7 @@ package sqlite
 //@   ensures owned(result0)
 //@   ensures [C10.scan.errChecked] rowsFailed(payload(rows)) ==> err != nil
 //@   ensures [C10.scan.closed] cnt(closeCall) == 1
+//@   at call:rowScanner.Close assert [C10.scan.closeLast] cnt(nextCall) >= 1
 
 //@ func (*SQLiteStore).streamRows
 //@   props C11 C10
@@ -92,6 +101,7 @@ package sqlite
 //@   requires exclusive(eventCount)
 //@   requires exclusive(iterErr)
 // yield sites of streamRows: #1 context cancelled, #2 scan error, #3 element, #4 iteration error
+//@   loop 1 invariant [C11.rows.goon] forall j int :: {nthres(y3, j)} 0 <= j && j < cnt(y3) ==> nthres(y3, j)
 //@   loop 1 invariant [C11.rows.loop] cnt(y3) == rowpos(payload(rows)) && cnt(y3) <= rowsAvail(payload(rows)) && cnt(y1) == 0 && cnt(y2) == 0 && cnt(y4) == 0 &&
 //@        0 <= *eventCount && *eventCount <= 1000000000000000000 + cnt(y3)
 //@   ensures [C11.rows.iterErr] rowsFailed(payload(rows)) && (cnt(y3) == 0 || lastres(y3, Bool)) && cnt(y1) == 0 && cnt(y2) == 0 ==>
@@ -100,6 +110,10 @@ package sqlite
 //@        cnt(y3) == rowsTotal(payload(rows)) && !rowsFailed(payload(rows))
 //@   ensures [C11.rows.cancel] cnt(y1) <= 1 && (cnt(y1) == 1 ==> lastarg(y1, 1) == nil && lastarg(y1, 2, Iface) != nil && ctxSeenDone(ctx))
 //@   ensures [C11.rows.closed] cnt(closeCall) == 1
+//@   at call:rowScanner.Close assert [C11.rows.closeLast] cnt(nextCall) >= 1
+//@   at call:func(*eventbus.StoredEvent, error) bool#3 assert [C10.rows.event] {C10,C11} event != nil && !scanFails(payload(rows), rowpos(payload(rows)) - 1) &&
+//@        event.Offset == dec(scancolInt(payload(rows), rowpos(payload(rows)) - 1, 0))
+//@   ensures [C11.rows.scanErr] cnt(y2) <= 1 && (cnt(y2) == 1 ==> lastarg(y2, 1) == nil && lastarg(y2, 2, Iface) != nil && scanFails(payload(rows), rowpos(payload(rows)) - 1))
 
 // ---------------------------------------------------------------- statements
 // The five statement texts.  The assumed meaning of each text is documented in
@@ -174,6 +188,8 @@ package sqlite
 //@ func (*SQLiteStore).Read
 //@   props C10
 //@   requires s != nil && ctx != nil && StmtInv(s)
+//@   ensures [C10.sqlite.read.metrics] cnt(onRead) == ite(s.metricsHook != nil, 1, 0)
+//@   at call:MetricsHook.OnRead assert [C10.sqlite.read.metrics.last] cnt(qStmt) == 1 || (from != "" && !isDec(from))
 //@   ensures [C10.sqlite.read.invalid] from != "" && !isDec(from) ==> err != nil && cnt(qStmt) == 0 && result1 == from && len(result0) == 0
 //@   ensures [C10.sqlite.read.query] from == "" || isDec(from) ==> cnt(qStmt) == 1 && lastarg(qStmt, 0) == ite(limit <= 0, s.readFromStmt, s.readStmt)
 //@   ensures [C10.sqlite.read.args] (from == "" || isDec(from)) && lastresi(qStmt, 1, Iface) == nil ==>
@@ -192,6 +208,7 @@ package sqlite
 //@ func (*SQLiteStore).SaveOffset
 //@   props C10 C12
 //@   requires s != nil && ctx != nil && StmtInv(s)
+//@   ensures [C10.sqlite.save.metrics] cnt(onSave) == ite(s.metricsHook != nil && cnt(execStmtCall) == 1, 1, 0)
 //@   ensures [C10.sqlite.save.invalid] offset != "" && !isDec(offset) ==> result != nil && cnt(execStmtCall) == 0
 //@   ensures [C10.sqlite.save.exec] offset == "" || isDec(offset) ==> cnt(execStmtCall) == 1 && lastarg(execStmtCall, 0) == s.saveOffsetStmt
 //@   ensures [C10.sqlite.save.args] (offset == "" || isDec(offset)) && lastresi(execStmtCall, 1, Iface) == nil ==>
@@ -199,9 +216,14 @@ package sqlite
 //@        payload(execArg(payload(lastresi(execStmtCall, 0, Iface)), 1)) == posOfOffset(offset)
 //@   ensures [C10.sqlite.save.err] cnt(execStmtCall) == 1 ==> (result != nil <==> lastresi(execStmtCall, 1, Iface) != nil)
 
+//@ event isNoRows := call Is
 //@ func (*SQLiteStore).LoadOffset
 //@   props C10 C12
 //@   requires s != nil && ctx != nil && StmtInv(s)
+// an unknown subscription (Scan fails with sql.ErrNoRows) is not an error: OffsetOldest
+//@   ensures [C10.sqlite.load.norows] cnt(isNoRows) == 1 && lastres(isNoRows, Bool) ==> err == nil && result0 == ""
+//@   ensures [C10.sqlite.load.othererr] cnt(isNoRows) == 1 && !lastres(isNoRows, Bool) ==> err != nil
+//@   ensures [C10.sqlite.load.metrics] cnt(onLoad) == ite(s.metricsHook != nil, 1, 0)
 //@   ensures [C10.sqlite.load.query] cnt(qRow) == 1 && lastarg(qRow, 0) == s.loadOffsetStmt && rowsArg(lastres(qRow), 0) == boxOf(string, subscriptionID)
 //@   ensures [C10.sqlite.load.found] !scanFails(lastres(qRow), 0) ==> err == nil && result0 == dec(scancolInt(lastres(qRow), 0, 0))
 //@   ensures [C10.sqlite.load.err] err != nil ==> result0 == "" && scanFails(lastres(qRow), 0)
@@ -222,6 +244,11 @@ package sqlite
 //@   requires exclusive(iterErr)
 //@   loop 1 invariant [C11.batched.cursor] currentPos == ite(cnt(batchCall) == 0, fromPosition, lastresi(batchCall, 1)) && (cnt(batchCall) > 0 ==> lastresi(batchCall, 2, Bool) && lastresi(batchCall, 0) >= batchSize)
 //@   loop 1 invariant [C11.batched.count] 0 <= *eventCount && *eventCount <= ite(currentPos > 0, currentPos, 0)
+//@   loop 1 invariant [C11.batched.noerr] cnt(y1) == 0 && cnt(y2) == 0
+//@   ensures [C11.batched.errs] cnt(y1) + cnt(y2) <= 1 && (cnt(y1) == 1 ==> lastarg(y1, 1) == nil && lastarg(y1, 2, Iface) != nil && ctxSeenDone(ctx)) &&
+//@        (cnt(y2) == 1 ==> lastarg(y2, 1) == nil && lastarg(y2, 2, Iface) != nil && lastresi(qDB, 1, Iface) != nil)
+// it ends quietly (no error yield of its own) only after a batch that stopped the stream itself or came back short and complete
+//@   ensures [C11.batched.end] cnt(y1) + cnt(y2) == 0 ==> cnt(batchCall) >= 1 && (!lastresi(batchCall, 2, Bool) || lastresi(batchCall, 0) < s.cfg.streamBatchSize)
 //@   at call:(*DB).QueryContext assert [C11.batched.query] query == SQL_READ()
 //@   at call:(*SQLiteStore).streamBatch assert [C11.batched.args] payload(rowsArg(rows, 0)) == currentPos && payload(rowsArg(rows, 1)) == batchSize
 
